@@ -42,7 +42,7 @@ pub trait FullEntryTrait<PN: PropertyName, VN: VariantName>: EntryTrait<PN, VN> 
                 },
             }
         }
-        cmp::Ordering::Greater
+        cmp::Ordering::Equal
     }
 }
 
